@@ -36,7 +36,8 @@ SHAPES_3D = [
 
 
 @st.composite
-def scenario_st(draw, shapes, max_n=24, weight_kinds=("none", "int", "dyadic", "zeroheavy"),
+def scenario_st(draw, shapes, max_n=24,
+                weight_kinds=("none", "int", "dyadic", "zeroheavy", "tenths"),
                 measure="maybe", numeric="some", max_valid=4, max_items=3, stats=None,
                 allow_order_key=True, min_valid=1, skew=True, min_n=0):
     if env.tier() == "thorough":
